@@ -582,6 +582,9 @@ func (m *machine) fail(label string, pos token.Pos) {
 	if m.inFold > 0 {
 		panic(abortPath{"fold-abort"})
 	}
+	if m.inInit {
+		panic(abortPath{"init-abort:" + label})
+	}
 	m.st.vcs++
 	m.ensureModel()
 	m.report(label, m.model, pos)
